@@ -9,19 +9,22 @@ from .values import (Val, PyC, PyList, SymObj, Closure, BM, Exc, OutOfSubset, fr
 
 
 class St:
-    __slots__ = ("env", "pc", "ghost")
+    __slots__ = ("env", "pc", "ghost", "facts")
 
-    def __init__(self, env=None, pc=(), ghost=None):
+    def __init__(self, env=None, pc=(), ghost=None, facts=frozenset()):
         self.env = env if env is not None else {}
         self.pc = tuple(pc)
         self.ghost = dict(ghost or {})
+        self.facts = facts      # pc entries that are facts about callee results (not branch conditions)
 
     def fork(self):
-        return St(dict(self.env), self.pc, self.ghost)
+        return St(dict(self.env), self.pc, self.ghost, self.facts)
 
-    def assume(self, t):
+    def assume(self, t, fact=False):
         if t != TRUE:
             self.pc = self.pc + (t,)
+            if fact:
+                self.facts = self.facts | {t}
         return self
 
 
